@@ -120,6 +120,9 @@ class BuiltinMixin:
         v, c = args
         if v.kind.name == 'opt':
             v = self.force(v)
+        hook = self.reg.externals.get(('isinstance', v.kind.name))
+        if hook is not None:
+            return hook(self, v, c)
         classes = c.py if c.kind == CONST else tuple(x.py for x in c.py)
         if not isinstance(classes, tuple):
             classes = (classes,)
